@@ -47,8 +47,12 @@ type histDesc struct {
 	Restart [][]bool        `json:"restart,omitempty"`
 	Kill    *killDesc       `json:"kill,omitempty"`
 	SrvRest *srvRestartDesc `json:"apricot_server_restart,omitempty"`
-	FSeed   uint64          `json:"fseed"`
-	SSeed   int64           `json:"sseed"`
+	// cache proxy (configCache=true) in the chain: "" | core (in front of the core's local or
+	// remote service, shared by the callers of that core) | apricot (inside the apricot server)
+	Proxy       string `json:"cache_proxy,omitempty"`
+	ClientShare int    `json:"callers_per_remote_client,omitempty"`
+	FSeed       uint64 `json:"fseed"`
+	SSeed       int64  `json:"sseed"`
 }
 
 type opRec struct {
@@ -71,6 +75,15 @@ func genRemoteDesc(r *rand.Rand, d *histDesc) {
 	d.Kind = "remote"
 	d.W = []int{4, 6, 8}[r.Intn(3)]
 	d.Share = d.W
+	d.ClientShare = 1
+	if d.Idx%3 == 0 {
+		if (d.Idx/3)%2 == 0 {
+			d.Proxy = "apricot"
+		} else {
+			d.Proxy = "core"
+			d.ClientShare = []int{2, d.W / 2, d.W}[r.Intn(3)]
+		}
+	}
 	budget := 39
 	for f, nf := 0, r.Intn(3); f < nf; f++ {
 		var ops []string
@@ -130,6 +143,10 @@ func genDesc(r *rand.Rand, idx int64, kind string) *histDesc {
 		// one Service per caller (separate cores), one Service for all (environments of one
 		// core starting at once), or pairs
 		d.Share = []int{1, 1, 2, d.W}[r.Intn(4)]
+		if idx%3 == 0 {
+			d.Proxy = "core" // every third: the core runs with configCache=true
+			d.Share = []int{2, d.W}[r.Intn(2)]
+		}
 		budget := 39 // + the final probe = 40
 		nf := []int{0, 0, 0, 1, 1, 1, 1, 2, 2, 2}[r.Intn(10)]
 		for f := 0; f < nf; f++ {
@@ -216,6 +233,7 @@ type engine struct {
 	tagGroup  map[string]int // incarnation tag of a core instance -> group
 	groups    []*group
 	remote    *remoteNode
+	clients   []*clientGroup
 	quiesced  bool          // the scheduler is gone: later requests (the probe) pass
 	reqActor  map[int64]int // request arrival number -> caller it was attributed to
 	reqOrd    map[int]int
@@ -404,7 +422,7 @@ func (e *engine) instance(g *group, restart bool) (caller, string, error) {
 	if e.d.Kind == "kill" {
 		cl, err = newChildCaller(e.s.Addr, tag)
 	} else {
-		cl, err = newInprocCaller(e.s.Addr, tag)
+		cl, err = newInprocCaller(e.s.Addr, tag, e.d.Proxy == "core")
 	}
 	if err != nil {
 		return nil, "", err
@@ -427,7 +445,6 @@ func (e *engine) invokeGate(actor, j int) {
 func (e *engine) workerDriver(actor int) {
 	defer e.sch.done(actor)
 	g := e.groups[actor/e.d.Share]
-	var rcl *remoteClient
 	for j := 0; j < e.d.Calls[actor]; j++ {
 		var cl caller
 		var tag string
@@ -437,7 +454,8 @@ func (e *engine) workerDriver(actor int) {
 			if sr != nil && sr.Actor == actor && sr.Call == j {
 				e.remote.stop(sr.Hard) // the apricot server goes down; this caller's next call meets it down
 			}
-			if rcl, err = e.remoteCaller(actor, rcl); err == nil {
+			var rcl *remoteClient
+			if rcl, err = e.remoteCaller(actor); err == nil {
 				cl, tag = rcl, rcl.tag
 			}
 		} else {
@@ -604,7 +622,14 @@ const (
 	stRunning = iota
 	stGated
 	stDone
+	stBlocked // inside a call, but waiting for another caller rather than for the store
 )
+
+// stallAfter: an actor that was released and has neither reached a gate nor
+// finished after this long is taken to be blocked on another caller (a lock or
+// a call-collapsing layer); the schedule goes on without it. This only shapes
+// the schedule, no oracle reads it.
+const stallAfter = 300 * time.Millisecond
 
 type pend struct {
 	actor     int
@@ -629,6 +654,8 @@ type sched struct {
 	expired bool
 	trace   []string
 	after   []chan struct{} // GateAfter channels not yet released
+	lastEv  time.Time
+	stalls  int
 }
 
 func newSched(nActors, nWork int, policy string, seed int64) *sched {
@@ -652,6 +679,7 @@ func (s *sched) arrive(actor int, kind string, seq int64, killPoint string) *pen
 	}
 	s.pending = append(s.pending, p)
 	s.state[actor] = stGated
+	s.lastEv = time.Now()
 	s.cond.Broadcast()
 	return p
 }
@@ -662,6 +690,7 @@ func (s *sched) done(actor int) {
 	}
 	s.mu.Lock()
 	s.state[actor] = stDone
+	s.lastEv = time.Now()
 	s.cond.Broadcast()
 	s.mu.Unlock()
 }
@@ -782,9 +811,37 @@ func (s *sched) run(e *engine) {
 		s.mu.Unlock()
 	})
 	defer timer.Stop()
+	tick := time.NewTicker(stallAfter / 4)
+	defer tick.Stop()
+	stopTick := make(chan struct{})
+	defer close(stopTick)
+	go func() {
+		for {
+			select {
+			case <-tick.C:
+				s.mu.Lock()
+				s.cond.Broadcast()
+				s.mu.Unlock()
+			case <-stopTick:
+				return
+			}
+		}
+	}()
+	s.mu.Lock()
+	s.lastEv = time.Now()
+	s.mu.Unlock()
 	for {
 		s.mu.Lock()
 		for !s.expired && s.anyRunning() {
+			if time.Since(s.lastEv) > stallAfter {
+				for i, st := range s.state {
+					if st == stRunning {
+						s.state[i] = stBlocked
+						s.stalls++
+					}
+				}
+				break
+			}
 			s.cond.Wait()
 		}
 		if s.expired {
@@ -801,11 +858,28 @@ func (s *sched) run(e *engine) {
 			return
 		}
 		if len(s.pending) == 0 {
+			blocked := false
+			for _, st := range s.state {
+				if st == stBlocked {
+					blocked = true
+				}
+			}
+			if blocked { // nothing to release, somebody still inside a call: wait for it
+				s.lastEv = time.Now()
+				for i, st := range s.state {
+					if st == stBlocked {
+						s.state[i] = stRunning
+					}
+				}
+				s.mu.Unlock()
+				continue
+			}
 			s.mu.Unlock()
 			return // everybody is done
 		}
 		p := s.choose()
 		s.state[p.actor] = stRunning
+		s.lastEv = time.Now()
 		s.last = p.actor
 		s.trace = append(s.trace, fmt.Sprintf("%d:%s", p.actor, p.kind))
 		if p.gateAfter != nil {
@@ -866,6 +940,7 @@ func runHistory(c *vlib.Ctx, idx int64, kind string) {
 	if d.Preset >= 0 {
 		s.Put(runKey, strconv.FormatInt(d.Preset, 10))
 	}
+	s.Put("o2/hardware/detectors/TST/flps/host1/cards", "{}") // cacheproxy.NewService reads the inventory
 	nActors := d.W + len(d.Foreign)
 	e := &engine{c: c, d: d, s: s, hc: &http.Client{Transport: &http.Transport{}},
 		tagActor: map[string]int{"probe": -1}, tagGroup: map[string]int{}, reqActor: map[int64]int{}, reqOrd: map[int]int{}, cur: map[int]int{}, curTag: map[int]string{}, callers: map[int]caller{}}
@@ -884,6 +959,9 @@ func runHistory(c *vlib.Ctx, idx int64, kind string) {
 	}
 	s.Plan = e.plan
 	if d.Kind == "remote" {
+		for i := 0; i < d.W; i += d.ClientShare {
+			e.clients = append(e.clients, &clientGroup{})
+		}
 		var err error
 		if e.remote, err = newRemoteNode(e); err == nil {
 			err = e.remote.start()
